@@ -47,6 +47,7 @@ pub struct InFlight {
     pub client: usize,
     pub tag: String,
     pub slot: Rc<RefCell<Option<Result<Resp, String>>>>,
+    pub handle: tokio::task::JoinHandle<()>,
 }
 
 #[derive(Clone, Debug, PartialEq, Eq)]
@@ -75,6 +76,9 @@ pub struct TaskMeta {
     pub cont: Cont,
     /// id of the stored problem document the spawning request worked on
     pub doc_id: Option<u64>,
+    /// the task was in flight when the server process was restarted: whatever it computed
+    /// never reached the store
+    pub died: bool,
 }
 
 pub struct World {
@@ -154,8 +158,8 @@ impl World {
             };
             *slot2.borrow_mut() = Some(out);
         };
-        actix_rt::spawn(Tagged { tag: tag.clone(), inner: Box::pin(fut) });
-        self.inflight.push(InFlight { client, tag, slot });
+        let handle = actix_rt::spawn(Tagged { tag: tag.clone(), inner: Box::pin(fut) });
+        self.inflight.push(InFlight { client, tag, slot, handle });
     }
 
     pub fn take_completed(&mut self) -> Vec<(usize, String, Resp)> {
@@ -239,6 +243,7 @@ impl World {
                 timed_out: false,
                 cont: Cont::NotYet,
                 doc_id,
+                died: false,
             },
         );
         Some(rec.id)
@@ -313,6 +318,53 @@ impl World {
         } else {
             self.settle_expected().await;
         }
+    }
+
+    /// Crash and restart of the server process; only the store survives. In-flight requests
+    /// are gone with their connections, database calls of the dead incarnation execute nothing
+    /// (the shim fails them at once), its worker threads run to their end against the dead
+    /// incarnation's state, and a new incarnation (fresh `AppState`, fresh session key, same
+    /// wiring) is assembled on the same store.
+    pub async fn restart(&mut self, seed: u64) {
+        for f in self.inflight.drain(..) {
+            f.handle.abort();
+        }
+        let next_client = self.db.sim_next_incarnation();
+        mongodb::sim::set_live_epoch(next_client.sim_epoch());
+        pump().await;
+        for t in blocking::parked() {
+            if self.tasks.contains_key(&t.id) && blocking::release_and_wait(t.id).is_none() {
+                self.hung_task = Some(t.id);
+                return;
+            }
+        }
+        self.expected.clear();
+        for t in self.tasks.values_mut() {
+            if !t.ended || t.cont != Cont::Done {
+                t.died = true;
+            }
+            t.released = true;
+            t.ended = true;
+            t.cont = Cont::Done;
+        }
+        for _ in 0..4 {
+            pump().await;
+            std::thread::sleep(Duration::from_micros(200));
+        }
+        self.incarnation += 1;
+        self.db = next_client;
+        let mut kb = [0u8; 64];
+        let mut r = simcore::Rng::new(seed ^ 0x5e55_10_4b ^ ((self.incarnation as u64) << 40));
+        for c in kb.chunks_mut(8) {
+            c.copy_from_slice(&r.next_u64().to_le_bytes());
+        }
+        self.key = Key::from(&kb);
+        mongodb::sim::set_auto(true);
+        crate::user::create_username_index(&self.db).await;
+        self.app_data = new_app_state(self.db.clone());
+        self.svc = build_service(self.app_data.clone(), self.key.clone()).await;
+        mongodb::sim::set_auto(false);
+        mongodb::sim::take_events();
     }
 
     pub fn running_set(&self) -> Vec<(String, String, String)> {
